@@ -41,6 +41,21 @@ PvalOk(r) ==
   ELSE IF r.expect = "hold" THEN CondHolds(r.scheme, r.cond, ParamRec(r), r) /\ r.rc = 0
   ELSE FALSE
 
+\* ---- bignParamsGen walked over its first seeds (algorithm 6.1.3 of STB 34.101.45 as bign.h describes it): on_seed() is handed
+\* seed0, seed0 + 1, ... (little-endian numbers modulo 2^64); for each of them b = B mod p with
+\* B = belt-hash(p || a || seed) || belt-hash(p || a || seed + 1); calc_q() is called exactly for the seeds whose b is a
+\* quadratic residue with 4a^3 + 27b^2 # 0, and sees that seed and that b; the interruption by on_seed() returns its code
+BignGenOk(r) ==
+  LET p == N(r.p)  a == N(r.a)
+      SeedAt(i) == FoldLeft(LAMBDA s, k : IncLE(s), r.seed0, Upto(i - 1))
+      BOf(s) == Mod(BignB(r.p, r.a, s), p)
+      Good(s) == LET b == BOf(s) IN Eq(ModExp(b, Half(Sub2(p, One)), p), One) /\ EB!IsSmooth(EB!BCurve(p, a, b))
+      goods == SelectSeq(r.seeds, Good)
+  IN /\ r.rc = r.errmax /\ Len(r.seeds) = r.nmax
+     /\ \A i \in 1..Len(r.seeds) : r.seeds[i] = SeedAt(i)
+     /\ r.cseeds = goods
+     /\ Len(r.cbs) = Len(goods) /\ \A i \in 1..Len(goods) : Eq(N(r.cbs[i]), BOf(goods[i]))
+
 \* ---- keys
 PubkeyOk(r) ==
   IF r.scheme = "pfok" THEN (r.rc = 0) = PfokPubkeyVal(PfokRec(r), N(r.Q))
@@ -140,6 +155,7 @@ Bad(r) ==
     [] r.op = "paramsGen" -> Scalar(/\ r.rcStd = 0 /\ r.rcGen = 0 /\ r.sameAsStd = 1 /\ r.rc = 0
                                     /\ \A c \in (IF r.scheme = "stb99" THEN {"lr", "plen", "qlen", "qdiv", "arange", "drange", "anotone"}
                                                   ELSE {"lr", "nl", "plen", "grange"}) : CondHolds(r.scheme, c, ParamRec(r), r))
+    [] r.op = "bignGen" -> Scalar(BignGenOk(r))
     [] r.op = "pubkeyVal" -> Scalar(PubkeyOk(r))
     [] r.op = "keypairVal" -> Scalar(KeypairOk(r))
     \* crafted (p, q) with a claimed embedding degree k (0: no claim): 900 = the claim about the pair is wrong (generator),
